@@ -99,6 +99,11 @@ def path(c, job):
     use_with = job.get("with_block", False)
     nd = pd.NotifierDelay(P)
     Pus = sx.sym_int(P * 1e6)
+    if job.get("enter_gap"):
+        # time passes between creation and entering the with-block: the grid stays anchored at creation
+        env.t = env.t + c.integer("gap", 0, 10 ** 9)
+        c.reach("entered-late")
+        nd.__enter__()
     c.summary = lambda: dict(K=K, period_us=sx.concretize_desc(nd.delay_period), t_end=sx.concretize_desc(env.t))
     c.prove("C16.grid period-in-microseconds", s_eq(nd.delay_period, Pus))
     c.prove("C16.grid first-alarm", s_eq(env.alarm, t0 + Pus))
@@ -142,7 +147,8 @@ class C16(Spec):
 
     def jobs(self, tier):
         K = 6 if tier == "quick" else 12
-        j = [dict(kind="run", K=K), dict(kind="step"), dict(kind="reject")]
+        j = [dict(kind="run", K=K), dict(kind="step"), dict(kind="reject"), dict(kind="run", K=min(K, 4), enter_gap=True),
+             dict(kind="run", K=3, enter_gap=True, free_at=3, with_block=True)]
         j += [dict(kind="run", K=K, free_at=f, with_block=(f % 2 == 0)) for f in (1, 2, K)]
         return j
 
@@ -151,7 +157,7 @@ class C16(Spec):
                     inductive_step="one wait() from any state with expiry = G + P")
 
     def reach_required(self, tier):
-        return ["wait", "freed", "inductive-step", "reject"]
+        return ["wait", "freed", "inductive-step", "reject", "entered-late"]
 
     def path_fn(self, c, job):
         path(c, job)
